@@ -45,14 +45,23 @@ Definition leaf_okb (sg : list NameModel.seg) (a : list Z) : bool :=
 Definition text_okb (t0 : list Z) : bool :=
   negb (is_nil t0) && forallb litcharb t0 && negb (has_char 47 t0).
 
-Definition sub_okb (sg : list NameModel.seg) (a : list Z) : bool :=
-  is_nil a &&
+(* a sub-tree name: one or more components "text/" or "text#N/", each literal
+   segment cut behind its '/' ("a#3/b#2/c/" = a #3 / b #2 / c/) *)
+Fixpoint comps_okb (sg : list NameModel.seg) : bool :=
   match sg with
-  | [NameModel.Lit t] => (last t 0 =? 47) && text_okb (removelast t)
-  | [NameModel.Lit t0; NameModel.Enum n; NameModel.Lit [c]] =>
-      (c =? 47) && text_okb t0 && (0 <=? n) && (n <? 1000000000)
-  | _ => false
+  | [] => true
+  | NameModel.Enum _ :: _ => false
+  | NameModel.Lit t :: r =>
+      match r with
+      | NameModel.Enum n :: NameModel.Lit [c] :: r' =>
+          (c =? 47) && text_okb t && (0 <=? n) && (n <? 1000000000) && comps_okb r'
+      | NameModel.Enum _ :: _ => false
+      | _ => (last t 0 =? 47) && text_okb (removelast t) && comps_okb r
+      end
   end.
+
+Definition sub_okb (sg : list NameModel.seg) (a : list Z) : bool :=
+  is_nil a && negb (is_nil sg) && comps_okb sg.
 
 Fixpoint keys_freeb (ks : list (list Z)) : bool :=
   match ks with
